@@ -336,4 +336,69 @@ def meetsB (o : Outcome) (s : SpecOut) : Bool :=
 def vspec (encOps : ReqFail → List Op) (fail : ReqFail) (ops : List Op) : VOutcome :=
   if fail = .none then ⟨true, runDirect {} ops, []⟩ else ⟨false, runDirect {} (encOps fail), [fail]⟩
 
+
+/-! ### one Validator / ValidationHandler serving a sequence of requests
+
+The property quantifies over every request a middleware instance serves, so the model is a state machine over
+request sequences: a step takes what the instance keeps between requests and the next request, and yields the
+client-visible outcome and the state handed to the following request.
+
+What `Validator` keeps between requests on this tree: nothing that a request changes. Its fields (router,
+errFunc, logFunc, strict, options) are written by NewValidator and its options before the first request; the
+closure returned by `Middleware` only reads them; the response wrapper is a fresh composite literal per request
+(`&strictResponseWrapper{w: w}` / `newWarnResponseWrapper(w)`); the file has no package-level variables. Those
+four facts are read off the source by the translator table `ValidatorState` and are `decide` obligations in
+Props/C14 — a pooled or cached wrapper, a counter or a cache in the struct shows up there. The same holds for
+`ValidationHandler` (fields written by `Load` and by the caller before serving). -/
+
+/-- one request as the middleware meets it: the verdicts of routing / request / response validation for it and
+the behaviour of the handler on it -/
+structure Req where
+  env : Env
+  ops : List Op
+
+/-- what the instance carries from one request to the next (no field: nothing) -/
+structure VState where
+  deriving DecidableEq, Repr
+
+/-- one request served by a Validator in state `st` -/
+def serve (cfg : Cfg) (st : VState) (r : Req) : VState × Outcome := (st, middleware cfg r.env r.ops)
+
+/-- a generic machine run: outcomes of a request sequence, threading the state -/
+def runSeq {σ ρ ω : Type} (step : σ → ρ → σ × ω) : σ → List ρ → List ω
+  | _, [] => []
+  | s, r :: rs => (step s r).2 :: runSeq step (step s r).1 rs
+
+/-- the client-visible outcomes of a sequence of requests through one `Validator.Middleware(h)` chain -/
+def serveSeq (cfg : Cfg) (reqs : List Req) : List Outcome := runSeq (serve cfg) {} reqs
+
+/-- a step function is history-free when its outcome does not depend on the state it is run in -/
+def HistoryFree {σ ρ ω : Type} (step : σ → ρ → σ × ω) : Prop := ∀ s1 s2 r, (step s1 r).2 = (step s2 r).2
+
+/-- one request of the older ValidationHandler: the result of validateRequest and the handler behaviour -/
+structure VReq where
+  fail : ReqFail
+  ops : List Op
+
+def vserve (encOps : ReqFail → List Op) (st : VState) (r : VReq) : VState × VOutcome :=
+  (st, vhandler encOps r.fail r.ops)
+
+def vserveSeq (encOps : ReqFail → List Op) (reqs : List VReq) : List VOutcome := runSeq (vserve encOps) {} reqs
+
+/-- Two requests in flight at once, each against its own wrapper: a schedule says whose call comes next.
+`interleave` runs the two handlers' strict wrappers under an arbitrary schedule (true = first handler). -/
+def interleaveStrict : List Bool → (Strict × List Op) → (Strict × List Op) → Strict × Strict
+  | [], a, b => (Strict.run a.1 a.2, Strict.run b.1 b.2)
+  | true :: sch, (wa, op :: opsA), b => interleaveStrict sch (wa.step op, opsA) b
+  | true :: sch, (wa, []), b => interleaveStrict sch (wa, []) b
+  | false :: sch, a, (wb, op :: opsB) => interleaveStrict sch a (wb.step op, opsB)
+  | false :: sch, a, (wb, []) => interleaveStrict sch a (wb, [])
+
+/-- spec over a history: every request of the sequence is answered as the property prescribes for that
+request alone -/
+def MeetsSeq (cfg : Cfg) : List Req → List Outcome → Prop
+  | [], [] => True
+  | r :: rs, o :: os => Meets o (spec cfg r.env r.ops) ∧ MeetsSeq cfg rs os
+  | _, _ => False
+
 end KinModel.Middleware
